@@ -31,6 +31,11 @@ def correspondence(res, tier, rng):
             # multiple of dt: the back-integrated table keeps changing until step dkmax + 2
             case["dkmax"], case["tau"] = 1, 0.25 * case["dt"]
             case["desc"]["dkmax"], case["desc"]["add_correlation_time"] = 1, case["tau"]
+        if i == 3:
+            # a system that is NOT smooth within a half step (square pulses whose edges fall off
+            # the half-step grid): the propagators depend on how the time integral is done, so
+            # TEMPO and compute_dynamics must ask for them with the same arguments
+            case["system"], case["desc"]["system"] = pulsed_system(case["d"], case["start"], case["dt"]), "pulsed"
         n, L = case["n"], case["d"] ** 2
         unique = bool(i % 2)
         t = cases.make_tempo(case, unique=unique)
@@ -145,6 +150,8 @@ def search(res):
     rng = random.Random(res.seed + 202)
     for i in range(14):
         case = cases.physical_case(rng, "quick", **({"d": 2, "n": 3 + 2 * i} if i < 2 else {}))
+        if i == 2:
+            case["system"], case["desc"]["system"] = pulsed_system(case["d"], case["start"], case["dt"]), "pulsed"
         if i < 2:
             # runs beyond the cut-off with an additional correlation time that is not a multiple
             # of dt (0.25 dt with dkmax 1; 1.5 dt with dkmax 2)
@@ -192,6 +199,20 @@ def search(res):
             if err > 1e-7:
                 res.fail("prefix", {"case": case["desc"], "unique": unique, "m": m,
                                     "max_state_difference": err})
+
+
+def pulsed_system(d, start, dt):
+    """H(t) = H0 + square pulses H1 switched on on [start + (k+0.13) dt, start + (k+0.31) dt)"""
+    import oqupy
+    rs = np.random.RandomState(1234 + d)
+    a = rs.normal(size=(d, d)) + 1j * rs.normal(size=(d, d))
+    b = rs.normal(size=(d, d)) + 1j * rs.normal(size=(d, d))
+    h0, h1 = (a + a.conj().T) / 4, (b + b.conj().T) * 1.5
+
+    def ham(t):
+        x = ((t - start) / dt) % 1.0
+        return h0 + (h1 if 0.13 <= x < 0.31 else 0.0 * h1)
+    return oqupy.TimeDependentSystem(ham)
 
 
 def file_couplings():
